@@ -588,6 +588,25 @@ def plan_c11(ctx):
                 take = rng.randint(2, 6)
             body = pre + [["project", [1], body_of()]]
         add(ctx, [query(ctx, "C11-r-%d" % i, 2, body, take=take, fuel=10)])
+    # several projected variables at once: each one sees ITS OWN current value (one project goal per branch)
+    for i in range(T(ctx, 120, 2400)):
+        n = rng.randint(2, 4)
+        pv = list(range(10, 10 + n))
+
+        def branch():
+            vals = [rng.choice(vals_pool[:4] + [["num", 5], ["num", 6], ["list", [["num", 1], ["num", 2]]]]) for _ in pv]
+            binds = [["eq", ["var", v], t] for v, t in zip(pv, vals)]
+            rng.shuffle(binds)
+            body = [rng.choice([["show", ["var", v]], ["show", ["var", v]], ["isnum", ["var", v]]]) for v in pv]
+            if rng.random() < 0.5:
+                rng.shuffle(body)
+            body.append(["eq", ["var", 1], ["list", [["var", v] for v in pv]]])
+            order = pv[:] if rng.random() < 0.5 else rng.sample(pv, len(pv))
+            return binds + [["project", order, body]]
+
+        nb = rng.randint(1, 3)
+        body = branch() if nb == 1 else [["conde", [branch() for _ in range(nb)]]]
+        add(ctx, [query(ctx, "C11-m-%d" % i, 1, [["fresh", pv, body]], take=1000, fuel=10)])
     with_engine_records(ctx, every=1)
 
 
@@ -885,6 +904,25 @@ def plan_fd(ctx):
         body, nv = gen.fd_collapse_program(rng)
         add(ctx, [{"id": "%s-col-%d" % (ctx["prop"], i), "kind": "program", "mode": "query",
                    "qvars": list(range(1, nv + 1)), "body": body, "after": 1}])
+    # the answer is a STRUCTURE over the domain variables (rows of a table, nested lists, compounds inside lists):
+    # labelling has to reach every variable of it, each solution exactly once
+    for i in range(T(ctx, 150, 3000)):
+        nv = rng.randint(2, 3)
+        vs = list(range(1, nv + 1))
+        lo, hi = rng.choice([(0, 1), (1, 3), (-1, 1), (1, 2)])
+        body = [["dom", ["list", [["var", v] for v in vs]], ["itv", lo, hi]]]
+        body += [gen.fd_constraint(rng, vs, lo, hi) for _ in range(rng.randint(0, 2))]
+        x, y, z = ["var", vs[0]], ["var", vs[1]], ["var", vs[-1]]
+        shape = rng.choice([
+            ["list", [["list", [x, y]], z]], ["list", [["list", [x]], ["list", [y]], z]],
+            ["list", [["cmp", "Pair", [x, y]], z]], ["list", [["num", 7], ["list", [x, ["list", [y]]]], z]],
+            ["list", [["list", [["num", 0], x]], ["list", [["num", 1], y]]] + ([z] if nv == 3 else [])],
+            ["cmp", "Pair", [["list", [x, ["list", [y]]]], z]], ["list", [["ilist", [x, y]], z]]])
+        q = nv + 1
+        body.append(["eq", ["var", q], shape])
+        rng.shuffle(body)
+        add(ctx, [{"id": "%s-sh-%d" % (ctx["prop"], i), "kind": "program", "mode": "query", "qvars": [q], "vars": vs,
+                   "body": body, "after": 1}])
     for i in range(T(ctx, 150, 3000)):
         goals, nq, aliases = gen.fd_alias_program(rng)
         rng.shuffle(goals)
